@@ -182,34 +182,74 @@ class HistoryOb(Obligation):
         return d
 
     def replay(self, conc, verdict_ok):
+        """three concrete runs on the unmodified library: the same history through the holder API (one of the property's
+        observation points, and what the lifted run drove), and two SQL renderings through LineageRunner - one whose
+        statements carry column lineage (SELECT *), one whose statements do not (SELECT 1): a defect may need either"""
         from lx import replay as R
 
-        rr = R.run_real(conc["sql"], "ansi")
-        if not rr.get("ok"):
-            return {"real_ok": False, "lifted_matches": False, "detail": rr}
-        strip = lambda xs: sorted(x.replace(D, "") for x in xs)
-        real = (strip(rr["sources"]), strip(rr["targets"]), strip(rr["intermediates"]))
+        strip = lambda xs: sorted(x.replace(D, "").lstrip(".") for x in xs)
         lifted = tuple(sorted(set(x)) for x in conc["got"])
-        if conc["want"] is None:
-            x = [h for h in conc["hist"] if h[0] == "rename"][-1][1]
-            real_ok = not any(x in g for g in real) if conc["hist"][-1][0] == "rename" and conc["hist"][-1][1] != conc["hist"][-1][2] else True
-        else:
-            real_ok = real == tuple(sorted(set(x)) for x in conc["want"])
-        # outside the RENAME precondition only "the old name is gone" is specified; there the SQL-level graph (which also
-        # carries column nodes) and the holder-level history may legitimately differ in the other roles
-        lm = (real == lifted) if conc["want"] is not None else (real_ok == verdict_ok)
-        return {"real_ok": real_ok, "lifted_matches": lm, "detail": {"real": real, "want": conc["want"]}}
+        want = tuple(sorted(set(x)) for x in conc["want"]) if conc["want"] is not None else None
+        last_rename = [h for h in conc["hist"] if h[0] == "rename"][-1] if conc["want"] is None else None
+
+        def judge(real):
+            if want is None:
+                if conc["hist"][-1][0] == "rename" and last_rename[1] != last_rename[2]:
+                    return not any(last_rename[1] in g for g in real)
+                return True
+            return real == want
+
+        hr = R.run_code(HOLDER_REPLAY % {"hist": repr(conc["hist"])})
+        if not hr.get("ok"):
+            return {"real_ok": False, "lifted_matches": False, "detail": hr}
+        hreal = tuple(strip(x) for x in hr["result"]["roles"])
+        verdicts = {"holder-api": judge(hreal)}
+        detail = {"holder-api": hreal, "want": conc["want"]}
+        for tag, sql in (("sql-star", conc["sql"]), ("sql-const", render_sql(conc["hist"], star=False))):
+            rr = R.run_real(sql, "ansi")
+            if not rr.get("ok"):
+                return {"real_ok": False, "lifted_matches": False, "detail": rr}
+            real = (strip(rr["sources"]), strip(rr["targets"]), strip(rr["intermediates"]))
+            verdicts[tag] = judge(real)
+            detail[tag] = real
+        real_ok = all(verdicts.values())
+        # fidelity: the lifted run drove the holder API, so that is what it has to agree with; outside the RENAME
+        # precondition only "the old name is gone" is specified and compared
+        lm = (hreal == lifted) if want is not None else (verdicts["holder-api"] == verdict_ok)
+        detail["verdicts"] = verdicts
+        return {"real_ok": real_ok, "lifted_matches": lm, "detail": detail}
 
 
-def render_sql(hist):
+HOLDER_REPLAY = r'''
+from sqllineage.core.holders import SQLLineageHolder, StatementLineageHolder
+from sqllineage.core.metadata.dummy import DummyMetaDataProvider
+from sqllineage.core.models import Table
+hs = []
+for h in %(hist)s:
+    sh = StatementLineageHolder()
+    if h[0] == "dml":
+        for r in h[1]: sh.add_read(Table(r))
+        if h[2] is not None: sh.add_write(Table(h[2]))
+    elif h[0] == "drop":
+        sh.add_drop(Table(h[1]))
+    else:
+        sh.add_rename(Table(h[1]), Table(h[2]))
+    hs.append(sh)
+res = SQLLineageHolder.of(DummyMetaDataProvider(), *hs)
+result = {"roles": [[t.raw_name for t in res.source_tables], [t.raw_name for t in res.target_tables], [t.raw_name for t in res.intermediate_tables]]}
+'''
+
+
+def render_sql(hist, star=True):
     out = []
+    what = "*" if star else "1"
     for h in hist:
         if h[0] == "dml":
             _, reads, write = h
             if reads and write is not None:
-                out.append("INSERT INTO %s SELECT * FROM %s" % (write, ", ".join(reads)))
+                out.append("INSERT INTO %s SELECT %s FROM %s" % (write, what, ", ".join(reads)))
             elif reads:
-                out.append("SELECT * FROM %s" % ", ".join(reads))
+                out.append("SELECT %s FROM %s" % (what, ", ".join(reads)))
             else:
                 out.append("INSERT INTO %s VALUES (1)" % write)
         elif h[0] == "drop":
